@@ -1,11 +1,11 @@
 package main
 
 import (
-	"regexp"
 	"fmt"
 	"go/token"
 	"go/types"
 	"os"
+	"regexp"
 	"sort"
 	"strings"
 
@@ -23,12 +23,12 @@ const Mod = "github.com/atlassian/gostatsd"
 // World is the resolved program: type-checked packages, SSA, call graphs.
 type World struct {
 	Dissolved map[string]string // anchors that no longer exist -> the only caller they had (rules are applied there)
-	Repo    string
-	Pkgs    []*packages.Package
-	ByPath  map[string]*packages.Package
-	Prog    *ssa.Program
-	SSAPkgs map[string]*ssa.Package
-	Fset    *token.FileSet
+	Repo      string
+	Pkgs      []*packages.Package
+	ByPath    map[string]*packages.Package
+	Prog      *ssa.Program
+	SSAPkgs   map[string]*ssa.Package
+	Fset      *token.FileSet
 
 	cgCHA *callgraph.Graph
 	cgVTA *callgraph.Graph
@@ -358,7 +358,6 @@ func (w *World) isDead(fn *ssa.Function) bool {
 	return false
 }
 
-
 var baselineCallersCache map[string][]string
 
 // dissolvedInto: a declared function named mn of package p existed on the pinned tree, no longer exists (under
@@ -396,9 +395,7 @@ func (w *World) dissolvedInto(p *ssa.Package, mn string) *ssa.Function {
 	return nil
 }
 
-
 var normSuffix = regexp.MustCompile(`__(i|mv|f)[0-9]*$`)
-
 
 // FuncOrHost is Func with one more fallback, for rules that can do their work on the caller: the anchor was
 // dissolved into the only function that referred to it on the pinned tree (inlined and deleted).  The code
